@@ -229,6 +229,13 @@ def _config(args):
             if phase > 0:
                 before = commit_counts(root)
                 try:
+                    if phase >= 2 and front in ("proc", "simple"):
+                        # an administrator who passed --defaults/--autocreate only on the first start: later starts without them
+                        if front == "proc":
+                            w.kw["autocreate"] = False
+                            w.kw["defaults"] = False
+                        else:
+                            w.args = w.args[:3] + (False, False)
                     w.restart()
                 except Exception as e:
                     vio("server-does-not-restart:%s:%s" % (front, mode), "restart %d failed: %s" % (phase, str(e)[-300:]), {})
@@ -297,6 +304,7 @@ def run(tier, workers=None):
         grid = [(p, u, m, "proc", 1, True) for p in PREFIXES for u in PRINCIPALS for m in MODES]
         grid += [(p, u, m, "wsgimod", 1, True) for p in PREFIXES[:2] for u in PRINCIPALS for m in MODES]
         grid += [(p, "/user/", "defaults", "simple", 1, True) for p in PREFIXES]
+        grid += [("/dav/", u, "defaults", "proc", 2, True) for u in PRINCIPALS]
     else:
         grid = list(itertools.product(PREFIXES, PRINCIPALS, MODES, FRONTS, [0, 1, 2], [False, True]))
     # the wsgi-module front mutates os.environ / reloads a module: keep those configurations in their own processes too
@@ -321,4 +329,5 @@ def run(tier, workers=None):
     return rep.finish("exploration", cov, assumptions=[
         "fronts: `python -m xandikos` subprocess; run_simple_server() in a child process; the xandikos.wsgi module configured by environment variables behind WellknownRedirector (in-process, module reloaded per start)",
         "a client follows redirects and resolves every href against the URL it was received from (RFC 3986)",
+        "the second restart of the subprocess / run_simple_server fronts is done WITHOUT --autocreate/--defaults (flags only given on first start)",
     ])
